@@ -355,7 +355,9 @@ func (w *world) blockIDs(r *lib.RNG) []*blockID {
 	add(blockID{tag: "latest", kind: "latest"})
 	add(blockID{tag: "l1", kind: "l1_accepted"})
 	add(blockID{tag: "str", str: "pending", kind: "tag-pending"})
-	add(blockID{tag: "str", str: "pre_confirmed", kind: "tag-pre_confirmed"})
+	if !w.preConfirmed {
+		add(blockID{tag: "str", str: "pre_confirmed", kind: "tag-pre_confirmed"})
+	}
 	add(blockID{tag: "str", str: lib.Pick(r, []string{"", "Latest", "earliest", "0x1", "pre-confirmed"}), kind: "tag-unknown"})
 	add(blockID{tag: "empty", kind: "obj-empty"})
 	add(blockID{tag: "other", num: uint64(r.Intn(nOtherIDs)), kind: "not-an-id"})
@@ -703,7 +705,7 @@ func (w *world) exhaustive() []*query {
 	}
 	ids = append(ids, &blockID{tag: "hash", hash: felt.Zero, kind: "hash-zero"}, &blockID{tag: "hash", hash: *lib.F(0xabcdef), kind: "hash-missing"},
 		&blockID{tag: "latest", kind: "latest"}, &blockID{tag: "l1", kind: "l1_accepted"},
-		&blockID{tag: "str", str: "pending", kind: "tag-pending"}, &blockID{tag: "str", str: "pre_confirmed", kind: "tag-pre_confirmed"},
+		&blockID{tag: "str", str: "pending", kind: "tag-pending"},
 		&blockID{tag: "str", str: "earliest", kind: "tag-unknown"}, &blockID{tag: "empty", kind: "obj-empty"},
 		&blockID{tag: "null", kind: "id-null"}, &blockID{tag: "nullnum", kind: "obj-null-number"})
 	for i := 0; i < nOtherIDs; i++ {
@@ -712,9 +714,16 @@ func (w *world) exhaustive() []*query {
 	if h > 0 {
 		ids = append(ids, &blockID{tag: "both", hash: *w.g.Bundles[0].Block.Hash, num: uint64(h - 1), kind: "obj-both"})
 	}
+	if !w.preConfirmed {
+		ids = append(ids, &blockID{tag: "str", str: "pre_confirmed", kind: "tag-pre_confirmed"})
+	}
 	add(query{method: "blockNumber"})
 	add(query{method: "blockHashAndNumber"})
 	addrs, slots, classes := w.addrUniverse(), w.slotUniverse(), w.classUniverse()
+	writtenSet := map[[2]felt.Felt]bool{}
+	for _, p := range w.writtenPairs() {
+		writtenSet[p] = true
+	}
 	for _, id := range ids {
 		for _, m := range blockMethods {
 			add(query{method: m, id: id})
@@ -743,7 +752,9 @@ func (w *world) exhaustive() []*query {
 			a := addrs[i]
 			for _, k := range slots {
 				add(query{method: "storage", id: id, addr: a, key: k, sub: addrKind(&a)})
-				add(query{method: "storageLU", id: id, addr: a, key: k, sub: addrKind(&a)})
+				if writtenSet[[2]felt.Felt{a, k}] {
+					add(query{method: "storageLU", id: id, addr: a, key: k, sub: addrKind(&a)})
+				}
 			}
 			add(query{method: "nonce", id: id, addr: a, sub: addrKind(&a)})
 			add(query{method: "classHashAt", id: id, addr: a, sub: addrKind(&a)})
